@@ -154,7 +154,17 @@ static void err_case(Toks& tk, Out& out, Params params)
               }
             });
       case 7: return describe([&] { state.SetConcentration(Species("Nope"), std::vector<double>{ 1.0, 2.0 }); });
-      case 8: return describe([&] { state.SetConcentration(a, std::vector<double>{ 1.0, 2.0, 3.0 }); });
+      case 8:
+        if (pos % 2 == 1)
+          return describe(
+              [&]
+              {
+                // a State with a single grid cell is no exception: two values for one cell are refused
+                auto one_cell = Builder(params).SetSystem(System(SystemParameters{ .gas_phase_ = gas })).SetReactions(reactions).SetNumberOfGridCells(1).Build();
+                auto st1 = one_cell.GetState();
+                st1.SetConcentrations(std::unordered_map<std::string, std::vector<double>>{ { "A", { 1.0, 2.0 } } });
+              });
+        return describe([&] { state.SetConcentration(a, std::vector<double>{ 1.0, 2.0, 3.0 }); });
       case 9: return describe([&] { state.SetConcentration(a, 1.0); });
       case 10: return describe([&] { state.SetCustomRateParameter("nope", std::vector<double>{ 1.0, 2.0 }); });
       case 11: return describe([&] { state.SetCustomRateParameter("k0", std::vector<double>{ 1.0 }); });
@@ -219,6 +229,8 @@ static void err_case(Toks& tk, Out& out, Params params)
               m[2] = std::vector<double>{ 1.0 };
             });
       case 22:
+        if (pos % 3 == 2)   // the short row is the last one: it belongs to the trailing partial group of rows
+          return describe([&] { VectorMatrix<double, 2> m(std::vector<std::vector<double>>{ { 1.0, 2.0 }, { 3.0, 4.0 }, { 5.0 } }); (void)m; });
         if (pos % 2 == 0)
           return describe([&] { VectorMatrix<double, 2> m(std::vector<std::vector<double>>{ { 1.0 }, { 2.0, 3.0 }, { 4.0 } }); (void)m; });
         return describe([&] { VectorMatrix<double, 2> m(std::vector<std::vector<double>>{ { 1.0, 2.0 }, { 3.0 }, { 4.0, 5.0, 6.0 } }); (void)m; });
